@@ -54,7 +54,11 @@ func (k *keeper) see(rowid int64, rec []interface{}, cb func(string) bool) bool 
 	k.rowids, k.rows, k.text = append(k.rowids, rowid), append(k.rows, rec), append(k.text, s)
 	stop := cb(s)
 	if stop || len(k.rows)%50 == 0 {
+		n := len(k.rows)
 		for i := range k.rows {
+			if n > 80 && !(i < 8 || i >= n-72 || i%7 == 0) {
+				continue // (long results: the first rows, the last 72 and every seventh)
+			}
 			if now := render(k.rowids[i], k.rows[i]); now != k.text[i] && rowChanged == "" {
 				rowChanged = fmt.Sprintf("row %d of %d delivered so far was %s when the callback got it and is %s now (the call has not returned yet)", i+1, len(k.rows), k.text[i], now)
 			}
